@@ -15,7 +15,9 @@ func init() { All["C01"] = c01 }
 func indCfgs(ctx *run.Ctx, ind *reg.Indicator, nrand int) []reg.Cfg {
 	out := []reg.Cfg{ind.Default}
 	for i := 1; i <= nrand; i++ {
-		out = append(out, ind.Rand(gen.New(ctx.Seed, fmt.Sprintf("cfg/%s/%d", ind.Name, i))))
+		cfg := ind.Rand(gen.New(ctx.Seed, fmt.Sprintf("cfg/%s/%d", ind.Name, i)))
+		cfg.Via = i%2 == 1 // every other random configuration is reached through the public fields of a default instance
+		out = append(out, cfg)
 	}
 	return out
 }
